@@ -232,3 +232,23 @@ reg(
                 "switches algorithm. Right level: failures depend on length and initial order, which unit tests sample with a few short arrays."),
     level_note="The reference functions (stable sort with nils last, first-occurrence dedup, indexing) are trusted.",
 )
+
+reg(
+    "C12",
+    title="views and conversions of a datum agree",
+    level="exploration",
+    technique="runtime monitoring: agreement monitor over every view of a generated datum (Value, &Value, as_view, to_value, ValueCow owned/borrowed, Option, Vec, HashMap/BTreeMap), serde and JSON round trips, derive(ObjectView, ValueView) structs compared with their serde conversion through the object API and a template battery, out-of-range integer probes",
+    design_ref="DESIGN.md §5 C12",
+    rule=("cases: (a) data from a recursive generator (depth <= 4, every scalar kind incl. dates, numeric-looking strings, arrays, single- and multi-key objects with keys like 'size'/'first'): "
+          "all views must agree on type_name, the four query_state answers, kind predicates, strict dump of to_value(), and (when no multi-key object is involved) render/source/to_kstr; "
+          "to_value, from_value::<Value> and the JSON text round trip must preserve the strict dump (dates, date-shaped strings and the empty/blank markers are excluded from the serde clauses); "
+          "(b) every instance of a family of derived structs (2160 field combinations: i64, f64, bool, String, Option, Vec, BTreeMap, nested struct, optional nested struct; a single-field struct; an empty struct) "
+          "compared with its serde conversion on get/contains_key/size/keys/iter/values and on 12 templates; enums and tuples round-tripped on the serde side; (c) integers across the i64/u64/i128 boundaries "
+          "through Rust integer types and JSON. distinct = distinct datum / struct instance by content; non-trivial = the datum is not nil."),
+    profiles={"quick": ["checked"], "thorough": ["checked"]},
+    floor={"quick": 15000, "thorough": 200000},
+    assumptions=["dates are encoded as strings by serde by design, so date-shaped strings are excluded from the kind clause", "the empty/blank query markers are not data and are excluded from the serde clauses"],
+    level_text=("Agreement of many views and conversion paths of the same generated datum, plus derived-vs-serde structs through templates. Right level: the property quantifies over all data and "
+                "all conversion paths; unit tests pin a handful of literals per path."),
+    level_note="Generated values and struct field pools are finite samples of the value space.",
+)
